@@ -181,7 +181,9 @@ def _run_parsed(ctx, prog, rule="R-SCAN"):
         return v - 256 if v > 127 else v
     hooks = {"unescapeChar": lambda c: s8(table.get(c % 256, 0))}
     for fn in fns[:1]:
-        unicode_on = any(st["callee"]["q"].endswith("parseHex4") for _, st in fn.calls())
+        # \u decoding is compiled in iff parseHex4 is reachable from here (directly or through a helper)
+        reach = prog.reachable([fn.key])
+        unicode_on = any(k_ in reach for k_ in (f_.key for f_ in prog.q("JsonDeserializer::parseHex4")))
         # one representative per class; the boundary neighbours of the digit
         # ranges are classes of their own (uniformity inside the hex classes is R-HEX)
         extra = [ord(c) for c in ":@G`gx/"] + [0x80 - 256, 0xFF - 256]
